@@ -24,7 +24,7 @@
 From Coq Require Import ZArith List Bool String.
 From V Require Import Base.Int Base.IO Spec.Gregorian.
 From V Require Model.Date Model.Time.
-From V Require Model.DateExtra Model.C01 Model.Show Judge.C09 Judge.C04 Proofs.C04Show Proofs.C04Holds Proofs.C04HoldsOld.
+From V Require Model.DateExtra Model.C01 Model.Show Judge.C09 Judge.C04 Proofs.C04Show Proofs.C04Holds Proofs.C04HoldsOld Proofs.C04OpDays.
 From V Require Import Model.DateTime Model.C04 Proofs.C04 Proofs.C04Date Proofs.C04Wide Proofs.C04Ops.
 Import ListNotations.
 Open Scope Z_scope.
@@ -763,3 +763,50 @@ Theorem C04_holds_hasheq : forall a b, dtz_ok a -> dtz_ok b ->
   Judge.C04.judge B"z.hasheq" [enc_dtz a; enc_dtz b] (run B"z.hasheq" [enc_dtz a; enc_dtz b]) = JOk.
 Proof. exact C04HoldsOld.holds_hasheq. Qed.
 Print Assumptions C04_holds_hasheq.
+
+(* ================================================================================================
+   z.opdays: impl Add<Days> / Sub<Days> for DateTime<Tz> ([add] = true / false): the value of
+   checked_add_days / checked_sub_days, Panic exactly where those are None ... *)
+Theorem C04_op_days_checked : forall (add : bool) a n,
+  let op := if add then dz_op_add_days a n else dz_op_sub_days a n in
+  match (if add then dz_checked_add_days a n else dz_checked_sub_days a n) with
+  | Val (Some z) => op = Val z
+  | Val None => op = Panic
+  | Panic => op = Panic
+  | OutOfFuel => op = OutOfFuel
+  end.
+Proof. exact C04OpDays.opdays_checked. Qed.
+Print Assumptions C04_op_days_checked.
+(* ... hence (C04_add_days / C04_sub_days), for every well-formed date-time, wall clock nominal or in the
+   headroom, leap-second fraction or not: the wall-clock DATE moves by n days, time of day, fraction and offset
+   are kept (day stepping, not instant stepping); Panic exactly when the target date is not a supported date
+   or the instant leaves the range *)
+Theorem C04_op_add_days : forall a n, dtz_ok a -> in_u64 n = true -> n <> 0 ->
+  let n' := wall a / 86400 + n in
+  let w' := n' * 86400 + wall a mod 86400 in
+  if dn_in_range n' && keep (w' - dz_off a) (frac (dz_utc a))
+  then exists z, dz_op_add_days a n = Val z /\ dtz_ok z /\ dz_off z = dz_off a /\
+                 wall z = w' /\ frac (dz_utc z) = frac (dz_utc a)
+  else dz_op_add_days a n = Panic.
+Proof. exact C04OpDays.op_add_days_spec. Qed.
+Print Assumptions C04_op_add_days.
+Theorem C04_op_add_days_zero : forall a, dz_op_add_days a 0 = Val a.
+Proof. exact C04OpDays.op_add_days_zero. Qed.
+Print Assumptions C04_op_add_days_zero.
+Theorem C04_op_sub_days : forall a n, dtz_ok a -> in_u64 n = true ->
+  let n' := wall a / 86400 - n in
+  let w' := n' * 86400 + wall a mod 86400 in
+  if ((n =? 0) || dn_in_range n') && in_rng (w' - dz_off a)
+  then exists z, dz_op_sub_days a n = Val z /\ dtz_ok z /\ dz_off z = dz_off a /\
+                 wall z = w' /\ frac (dz_utc z) = frac (dz_utc a)
+  else dz_op_sub_days a n = Panic.
+Proof. exact C04OpDays.op_sub_days_spec. Qed.
+Print Assumptions C04_op_sub_days.
+(* a leap-second wall clock (09:59:59 + 1.5 s at +01:00 on the last day) keeps its fraction one day back; one
+   day forward panics; zero days is the identity *)
+Example C04_op_days_example :
+  let a := mk_dtz (mk_ndt (Date.D_MAX) (Time.mk_time 32399 1500000000)) 3600 in
+  dz_op_sub_days a 1 = Val (mk_dtz (mk_ndt (Date.D_MAX - 16) (Time.mk_time 32399 1500000000)) 3600) /\
+  dz_op_add_days a 1 = Panic /\ dz_op_add_days a 0 = Val a.
+Proof. exact C04OpDays.opdays_examples. Qed.
+Print Assumptions C04_op_days_example.
